@@ -187,8 +187,10 @@ def post_ops(log_path, cert_name=None):
 def run_scenario(root, certs, accounts=None, ca_opts=None, rules=None, hook_exits=None, n_postop=1,
                  timeout=30, env=None, helper=None, pre=None, extra_global=None, rate_limits=None,
                  keep=False, tls=None, extra_args=None, ca=None, with_file_hooks=True,
-                 account_hooks=False, settle=0.05):
-    """Runs the daemon until `n_postop` post-operation records exist (or time-out)."""
+                 account_hooks=False, settle=0.05, stop=None, hooks_edit=None):
+    """Runs the daemon until `n_postop` post-operation records exist (or time-out).  `stop(ca, log)`: one more
+    reason to end the run (a request cap: a client that never stops asking must end the scenario, judged, not
+    run into the time limit); `hooks_edit(cfg, root)`: last changes to the configuration (hook I/O members)."""
     own_helper = helper is None
     helper = helper or mockca.Helper()
     own_ca = ca is None
@@ -199,6 +201,8 @@ def run_scenario(root, certs, accounts=None, ca_opts=None, rules=None, hook_exit
     cfg, log = make_config(root, ca.base + "/directory", certs, accounts, hook_exits=hook_exits,
                            extra_global=extra_global, rate_limits=rate_limits,
                            with_file_hooks=with_file_hooks, account_hooks=account_hooks)
+    if hooks_edit:
+        hooks_edit(cfg, root)
     cfg_path = cfggen.write(os.path.join(root, "acmed.toml"), cfg)
     if pre:
         pre(root, cfg)
@@ -210,10 +214,16 @@ def run_scenario(root, certs, accounts=None, ca_opts=None, rules=None, hook_exit
             return len(ca.log) + os.path.getsize(log)
         except OSError:
             return len(ca.log)
-    done = wait_progress(lambda: len(post_ops(log)) >= n_postop or not d.alive(), life, idle=timeout, cap=10 * timeout)
+    stopped = []
+
+    def stop_now():
+        if stop is not None and stop(ca, log):
+            stopped.append(True)
+        return bool(stopped)
+    done = wait_progress(lambda: len(post_ops(log)) >= n_postop or not d.alive() or stop_now(), life, idle=timeout, cap=10 * timeout)
     time.sleep(settle)
     rc = d.stop()
-    obs = {"hooks": read_log(log), "ca": list(ca.log), "rc": rc, "stderr": d.stderr(),
+    obs = {"stopped": bool(stopped), "hooks": read_log(log), "ca": list(ca.log), "rc": rc, "stderr": d.stderr(),
            "completed": len(post_ops(log)) >= n_postop, "root": root, "cfg": cfg,
            "accounts": {u: {k: v for k, v in a.items()} for u, a in ca.accounts.items()}}
     if own_ca:
